@@ -79,6 +79,7 @@ type scenOpts struct {
 	arrivals       []time.Duration
 	holds          []time.Duration
 	qTimeouts      []time.Duration
+	prePumpPct     int // % of the runs that start with the limiter's sample window one completion from closing
 	sharedCtxPct   int // % of the runs in which the callers without a cancellation of their own pass one shared, live context
 	bTimeouts      []time.Duration
 	deadlines      []time.Duration
@@ -198,6 +199,24 @@ func drawScen(r *Run, o scenOpts) *scen {
 		return nil
 	}
 	sc.st = st
+	if o.prePumpPct > 0 && st.Default != nil && c.Kind != "deadline" && t.Chance(o.prePumpPct, "pre-pump") { // (the deadline kind counts its deadline from the construction of the stack)
+		// earlier traffic: the limiter's sample window is about to close, so that it closes (and the strategy is told
+		// the limit again) while tokens of this scenario are outstanding
+		key := ""
+		if c.Strategy == "predicate" {
+			key = "a"
+		}
+		for i, n := 0, 9+t.Intn(3, "pre-pump-n"); i < n; i++ {
+			l, ok := st.Default.Acquire(st.PartCtx(bg, key))
+			if !ok || l == nil {
+				r.Fail("refused-with-room", c.Key(), "sequential acquire %d of the preceding traffic refused with nothing outstanding", i+1)
+				return nil
+			}
+			time.Sleep(c.MinRTTThresh + time.Duration(1+t.Intn(3, "pre-pump-rtt"))*time.Microsecond)
+			l.OnSuccess()
+		}
+		r.Probe("window_about_to_close_at_start")
+	}
 	sc.s = r.NewSched()
 	for i := 0; i < pre; i++ {
 		key := ""
